@@ -531,6 +531,10 @@ def c204(ctx):
                     if ty.startswith("core::result::Result<") or ty.startswith("&core::result::Result<"):
                         err_edges.add((b.idx, "sw:1"))
         q = P.must_pass(f, pts, avoid_edges=err_edges)
+        if q is None:
+            # ... whatever it returns -- except an explicit Ok(..): an Err arm that ends in `return Ok(())` swallowed the failure, and the
+            # claim with it
+            q = P.reach(f, P.ENTRY, P.ok_points(f), avoid=set(pts) | set(P.error_points(f)))
         ctx.check(R, f, "claim-applied-or-error", q is None, "every success return of %s has applied the compaction" % name,
                   "%s can return Ok without having applied the compaction it was given: the claim stays in `ongoing` for ever (only apply_compaction and "
                   "the error path of compaction_thread remove it), every candidate that overlaps it is refused, and a level-0 claim left behind ends in "
